@@ -683,6 +683,11 @@ func (s *Server) handlePQClientRequestHidden(b []byte) (int, *HandshakeState, er
 	// init kem
 	hs.kem = new(kemState)
 
+	// The client's certificate is verified while the request is read, so the
+	// configured policy must be attached first (the discoverable handshake does
+	// this when it handles the ClientAck).
+	hs.certVerify = s.config.ClientVerify
+
 	n, err := s.readPQClientRequestHidden(hs, b)
 
 	if err != nil {
